@@ -241,6 +241,8 @@ def _sequences(R, rule, tu, call, E, calls, tabs):
         (D(2012, 1, 28), D(2012, 3, 3), [("DT_DURD", 1)], {6, 7}), (D(2012, 1, 28), D(2012, 3, 3), [("DT_DURD", 2)], {1, 3, 5}),
         (D(2012, 3, 3), D(2012, 1, 28), [("DT_DURD", -1)], {6, 7}), (D(2012, 1, 30), D(2012, 6, 30), [("DT_DURMO", 1), ("DT_DURD", 1)], set()),
         (D(2012, 1, 1), D(2012, 1, 1), [("DT_DURD", 1)], set()),
+        # month steps from a 31st with a skip set: the weekday that counts is that of the clamped date that is printed
+        (D(2013, 5, 31), D(2013, 9, 30), [("DT_DURMO", 1)], {6, 7}), (D(2012, 1, 31), D(2012, 12, 31), [("DT_DURMO", 1)], {1, 2, 3}),
     ]
     for fst, lst, incs, skip in cases:
         for from_last in (False, True):
